@@ -139,12 +139,13 @@ def ttl_obj_text(o):
 
 
 def plain_inner_literal(v):
-    """inner literal of a quoted triple that survives being written bare: single-spaced words without
-    whitespace characters, quotes, angle brackets or backslashes"""
+    """inner literal of a quoted triple that survives being written bare (forallb word_ok of Spec.v): single-spaced
+    words without TAB / LF / CR, quotes, angle brackets or backslashes; other white-space characters (U+00A0, U+3000,
+    U+2028 ...) may occur inside a word but not at its ends"""
     if v == "":
         return True
     ws = v.split(" ")
-    return all(w != "" and not (set(w) & WS) and not (set(w) & set('"<>\\')) for w in ws)
+    return all(w != "" and not (set(w) & set('\t\n\r"<>\\')) and w[0] not in WS and w[-1] not in WS for w in ws)
 
 
 def qt_safe(t):
@@ -171,7 +172,8 @@ def case_terms(case):
 ALPHA = ['"', '\\', '\n', '\r', '\t', '<', '>', '^', '@', ' ', '.', ';', ',', '#', '{', '|', '}', '_', ':', '-',
          'a', 'b', 'n', 'u', '0', '\u00e9', '\u00a0', '\u2028', '\U0001F600', '\U0010FFFF', "'", '/']
 WORDS = ["", "plain", "two words", "he said \"hi\"\\ \n end", "a.b;c,d # e", "x^^y@en", "tab\there", "\\n", "\\",
-         "line1\r\nline2", "<b>bold</b", "1 < 2 > 0", "\u00e9t\u00e9 \U0001F600", "{| x", "a |} b", "\\u0041", "'q'"]
+         "line1\r\nline2", "<b>bold</b", "1 < 2 > 0", "Summary\nStatus: open", "TODO\r\nfix: the parser", "\nnote: x",
+         "a\tb: c", "\rk:v", "x\ny+z.w-1:", "\u00e9t\u00e9 \U0001F600", "{| x", "a |} b", "\\u0041", "'q'"]
 IRI_PATH = list("abcxyz0189") + ['.', ';', ',', '#', '@', '/', '?', '=', '&', '%', '~', '-', '_', '!', '$', "'", '(', ')', '*', '+',
                                  '\u00e9', '\U0001F600', ':']
 
@@ -217,7 +219,8 @@ def gen_qt(rng, depth, unsafe=False):
     elif r < 0.7:
         o = gen_bnode(rng)
     else:
-        o = rng.choice(["w", "two words", "a b c", "x1", "", "d.e", "v;w,x", "\u00e9 \U0001F600", "k-v", "{|x|}", "a {| b"])
+        o = rng.choice(["w", "two words", "a b c", "x1", "", "d.e", "v;w,x", "\u00e9 \U0001F600", "k-v", "{|x|}", "a {| b",
+                        "\u5168\u89d2\u3000\u30b9\u30da\u30fc\u30b9", "prix\u00a0fixe", "a\u2028b c", "x\u3000y z\u00a0w"])
         if unsafe and rng.random() < 0.5:
             o = rng.choice(["a  b", " lead", "trail ", "tab\there", "line\nbreak", "x\"y", "\"q\"", "a>>b", "<<a", "b\\", "he said \"hi\"", "x<y", "x>y"])
     return {"q": [s, p, o]}
@@ -246,6 +249,31 @@ def gen_db(rng, qt=False, clean=False, unsafe=False):
                 o = gen_qt(rng, 2, unsafe)
         quads.append([s, p, o, rng.choice(graphs)])
     return {"op": "rt", "quads": quads}
+
+
+PREFIX_POOL = [("ex", "http://example.org/ns/"), ("foaf", "http://xmlns.com/foaf/0.1/"), ("v", "https://a.b/v#"), ("d", "urn:data:")]
+LOCALS = ["v1.0", "john.doe", "has-file", "index.html", "a_b", "x", "name", "r2.d2.c3po", "0", "a.b.c", "k-1.2", "\u00e9t\u00e9.x"]
+
+
+def gen_prefix_db(rng):
+    """a database WITH declared prefixes and IRIs inside those namespaces (dots, dashes, digits in the local part)"""
+    pf = dict(rng.sample(PREFIX_POOL, rng.choice([1, 2, 2, 3])))
+    ns = list(pf.values())
+    iri = lambda: rng.choice(ns) + rng.choice(LOCALS) if rng.random() < 0.8 else gen_iri(rng)
+    quads = []
+    subs = [iri(), iri()]
+    for _ in range(rng.choice([1, 2, 3, 4, 6])):
+        r = rng.random()
+        if r < 0.45:
+            o = iri()
+        elif r < 0.5:
+            o = gen_bnode(rng)
+        elif r < 0.58:      # the narrow known class: a term whose text before the first colon is a declared prefix name
+            o = rng.choice(list(pf)) + rng.choice([":foo", ": note", ":v1.0"])
+        else:
+            o = gen_plain_literal(rng)
+        quads.append([rng.choice(subs), iri(), o, rng.choice([None, None, None, gen_iri(rng)])])
+    return {"op": "rt", "quads": quads, "prefixes": pf}
 
 
 def has_qt(case):
@@ -315,16 +343,30 @@ def eval_rt(ctx, binpath, cases, stream, report=True):
         counts["quoted"] += int(qt)
         mism = []
         # -- exported texts: the model is run on the implementation's own iteration order, so the texts must be equal
-        for key, mt in (("nq", m_nq), ("nt", m_nt), ("ttl", m_ttl)):
-            if im[key] != pstr(mt):
-                mism.append({"what": "exported %s text differs" % key, "impl": im[key], "model": pstr(mt)})
+        prefixes = c.get("prefixes") or {}
+        ttl_body = im["ttl"]
+        if prefixes:
+            # generate_turtle writes one @prefix line per declared prefix (hash-map order), a blank line, then the statements
+            lines_ = im["ttl"].split("\n")
+            k = 0
+            while k < len(lines_) and lines_[k].startswith("@prefix"):
+                k += 1
+            header = sorted(lines_[:k])
+            if header != sorted("@prefix %s: <%s> ." % kv for kv in prefixes.items()) or (k < len(lines_) and lines_[k] != ""):
+                mism.append({"what": "Turtle prefix header differs", "impl": lines_[:k + 1], "prefixes": prefixes})
+            ttl_body = "\n".join(lines_[k + 1:])
+        capture = lambda q: q[3] is None and any((":" in x and not x.startswith("http://") and not x.startswith("https://")
+                                                  and not x.startswith("<<") and x.split(":", 1)[0] in prefixes) for x in q[:3])
+        for key, mt, it in (("nq", m_nq, im["nq"]), ("nt", m_nt, im["nt"]), ("ttl", m_ttl, ttl_body)):
+            if it != pstr(mt):
+                mism.append({"what": "exported %s text differs" % key, "impl": it, "model": pstr(mt)})
         # -- quads read back
         backs = {}
         for key, mb in (("nq", ("ok", pquads(m_nq_back))), ("nt", ("ok", pquads(m_nt_back))), ("ttl", ptres(m_ttl_back))):
             ib = im[key + "_back"]
             ib = ("ok", iquads(ib["quads"])) if "quads" in ib else ("panic",)
             backs[key] = ib
-            if mb[0] == "unsupported":
+            if mb[0] == "unsupported" or (key == "ttl" and any(capture(q) for q in orig)):
                 continue
             if ib != mb:
                 mism.append({"what": "quads read back from %s differ" % key, "impl": ib, "model": mb})
@@ -346,9 +388,9 @@ def eval_rt(ctx, binpath, cases, stream, report=True):
                 v[key] = "known:C14-quoted-triple-bare-components"
                 continue
             # N-Quads / N-Triples: no double-decoding class is left (commit 16f77b9); Turtle path unchanged
-            known = dd_ttl_quad if key == "ttl" else (lambda q: False)
+            known = (lambda q: dd_ttl_quad(q) or capture(q)) if key == "ttl" else (lambda q: False)
             if ib[0] == "ok" and all(known(q) for q in missing) and (not extra or missing):
-                v[key] = "known:C14-double-decoding"
+                v[key] = "known:C14-turtle-prefix-capture" if any(capture(q) for q in missing) else "known:C14-double-decoding"
                 continue
             if not wf:
                 v[key] = "outside-quantifier"
@@ -546,7 +588,7 @@ def load_corpus():
 
 def run(ctx):
     ctx.coq("Codec14", "C14.v")
-    binpath = ctx.harness("c14")
+    binpath = os.environ.get("VERIF_C14_BIN") or ctx.harness("c14")    # the override is for the developer's self-test on a private copy
     rng = ctx.rng
 
     # 1. corpus: repaired witnesses must round-trip; witnesses of open findings are replayed
@@ -598,6 +640,11 @@ def run(ctx):
     ctx.sample(qts[0])
     eval_rt(ctx, binpath, qts, "random_quoted_triples")
 
+    # 3b. databases with a non-empty prefix map (generate_turtle writes @prefix lines; parse_turtle applies them)
+    pfx = [gen_prefix_db(rng) for _ in range(max(10, n // 4))]
+    ctx.sample(pfx[0])
+    eval_rt(ctx, binpath, pfx, "random_with_prefixes")
+
     # 4. function-level streams
     fnc = gen_fn_cases(rng, 600 if ctx.thorough else max(6, n // 5))
     ctx.sample(fnc[3])
@@ -622,7 +669,8 @@ def run(ctx):
             "Rust String modelled as a list of code points; str::trim/lines/char::is_whitespace re-stated in Gallina; "
             "char::is_alphanumeric exact below U+0100 only (language-tag scan)",
         ],
-        assumptions=["the database's prefix map is empty (generate_turtle writes no @prefix line; parse_turtle expands no prefix)",
+        assumptions=["the Turtle THEOREMS are for an empty prefix map; databases with prefixes are covered by the stream random_with_prefixes "
+                     "(Spec oracle + model on the statements below the @prefix header), outside the class C14-turtle-prefix-capture",
                      "dictionary and quoted-triple store are injective term<->id maps (C15)",
                      "iteration order of the store is arbitrary: the model is run on the order the implementation reported"],
         extra={"partial": [
